@@ -29,7 +29,7 @@ EXPLANATION = (
     "of the re-binning (first bin [l,r], others (l,r]) puts every range in [0,max] into exactly one of two adjacent bins on "
     "every ordering of the range relative to the edges. Not decided: path independence across segment borders, idempotence "
     "and continuity over the whole Haigh plane.")
-EXPLANATION += (' R-C12-4 additionally requires both aggregation paths (with and without additional index levels) to use the verified membership predicate and no library binning. R-C12-5: the validated R-segment order reaches the distance sort of the segment transformer unchanged; the two unbounded segments tie in distance, so their processing order is the validated order.')
+EXPLANATION += (' R-C12-4 additionally requires both aggregation paths (with and without additional index levels) to use the verified membership predicate and no library binning. R-C12-5: the two unbounded R segments, whose mid points are +-inf and whose pseudo mean stress is NaN, do not tie: the placing method treats mid == inf explicitly and brings the segments into a defined order (stable argsort / lexsort), and the walks sort the distances with a stable sort.')
 EXPLANATION += (' R-C12-6: a local helper whose result is NaN-patched (.fillna) at one call site is patched or guarded by an explicit infinity test of its argument at every call site (belief-contradiction rule for the indeterminate form (1+R)/(1-R) at R = +-inf).')
 EXPLANATION += (" R-C12-4 evaluates the membership mask of the re-binning helper (after inlining its locals) as a boolean function of the position of a range relative to the class edges, for &, |, ~, operator/np comparison functions and comparison expressions; an approximate comparison (np.isclose ...) in the mask is a violation. R-C12-7: no numeric parameter (M, M2, R_goal, amplitude, meanstress ...) of a mean-stress function is used as a truth value - 0 is admissible for each of them.")
 EXPLANATION += (' R-C12-8: whatever the histogram accessor combines by position with the rows of the caller\'s matrix (A.iloc[mask(B.values)], traced through nested helpers and common row selections) is aligned with the index of the matrix first (B = B.reindex(self._obj.index)); the transformed classes come back in the row order of the broadcast.')
@@ -255,106 +255,81 @@ def _order_kept(e, params):
         return ("unknown", norm_text(e))
 
 
+def unbounded_tie(dist_fn):
+    """facts about the method that places the R segments on the mean-stress axis: (NaN patch statements, explicit treatments of
+    the segment whose mid point is +inf, statement that puts the segments into a defined order)"""
+    patches = [c for c in calls_in(dist_fn) if isinstance(c.func, ast.Attribute) and c.func.attr in ("fillna", "nan_to_num")] + \
+        [c for c in calls_in(dist_fn) if call_name(c) in ("np.nan_to_num", "np.where") and
+         any(isinstance(x, ast.Call) and call_name(x) in ("np.isnan", "pd.isna") for x in ast.walk(c))]
+    explicit = [n for n in ast.walk(dist_fn) if isinstance(n, ast.Compare) and len(n.ops) == 1 and
+                isinstance(n.ops[0], (ast.Eq, ast.NotEq)) and
+                any(isinstance(x, ast.Attribute) and x.attr == "mid" for x in ast.walk(inline_single_defs(dist_fn, n))) and
+                any(norm_text(x) in ("np.inf", "-np.inf", "float('inf')", "math.inf", "numpy.inf") for x in n.comparators + [n.left])]
+    ordered = [c for c in calls_in(dist_fn) if (call_name(c) in ("np.argsort", "np.lexsort") or
+                                                (isinstance(c.func, ast.Attribute) and c.func.attr in ("argsort", "sort_values")))
+               and any(k.arg == "kind" and const_value(k.value) in ("stable", "mergesort") for k in c.keywords)] + \
+        [c for c in calls_in(dist_fn) if call_name(c) == "np.lexsort"]
+    return patches, explicit, ordered
+
+
 def _r5(ctx):
-    """Processing order of the R segments.  The diagram validates its R index in the order it was given (ascending with the
-    wrap (1, inf) -> (-inf, 0]); the transformer sorts the segments by distance from the target only, and the two unbounded
-    segments have the same distance, so their relative order - which decides whether pure compression cycles are carried over
-    R = +-inf first - is the validated order.  The index must therefore reach the transformer without being re-ordered."""
+    """Processing order of the R segments.  The transformer places every segment on the mean-stress axis by (1 + R)/(1 - R) of
+    its mid point and walks through the segments by distance from the target.  The mid points of the two unbounded segments are
+    +inf and -inf, the expression is NaN for both, and a common NaN patch puts both at -1: they tie.  Which of the two is
+    processed first - which decides whether pure compression cycles (R > 1) are carried over R = +-inf or are left behind -
+    would then be decided by the order in which the diagram lists its segments, and for the target R = -inf the segment
+    (1, inf) would not be processed at all.  Required: (a) the placing method treats the segment with mid point +inf
+    explicitly (it lies left of the one open to -inf), (b) it brings the segments into a defined order (a stable argsort of that
+    flag, or a lexicographic sort), and (c) the walks sort the distances with a stable sort, so that what still ties after
+    rounding keeps that order."""
     prog = ctx.prog
-    ctx.rule("R-C12-5", floor=3, what="the validated R segment order reaches the distance sort unchanged (ties keep the validated order)")
-    init = prog.func(MS + ":_SegmentTransformer.__init__")
-    params = [p_ for p_ in init.params if p_ != "self"]
-    # roles, not names: the diagram's validated R index is the attribute `_validate` stores from the private extraction
-    # method; the transformer's segments are the attribute its constructor stores from the parameter that receives that index
-    tr = prog.func(MS + ":HaighDiagram.transform")
-    call = [c for c in calls_in(tr.node) if call_name(c) == "_SegmentTransformer"]
-    if len(call) != 1:
-        raise AnalysisError("transform: construction of the segment transformer not found")
-    val = prog.func(MS + ":HaighDiagram._validate")
-    hd = prog.cls(MS + ":HaighDiagram")
-    vst, fr = [], None
-    for s_ in walk_function(val.node):
-        if isinstance(s_, ast.Assign) and is_self_attr(s_.targets[0]):
-            for c in calls_in(s_.value):
-                if isinstance(c.func, ast.Attribute) and is_self_attr(c.func) and c.func.attr.startswith("_"):
-                    cal = prog.lookup_method(hd, c.func.attr)
-                    if cal is not None and any(isinstance(n_, ast.Attribute) and n_.attr in ("index", "get_level_values")
-                                               for n_ in ast.walk(cal.node)) and "R" in {const_value(n_) for n_ in ast.walk(cal.node)
-                                                                                         if isinstance(n_, ast.Constant)}:
-                        vst.append(s_)
-                        fr = cal
-    if len(vst) != 1 or fr is None:
-        raise AnalysisError("HaighDiagram._validate: the store of the validated R index was not found")
-    dattr = vst[0].targets[0].attr
-    seg_pos = [i for i, a_ in enumerate(call[0].args) if any(is_self_attr(n_, dattr) for n_ in ast.walk(a_))]
-    if len(seg_pos) != 1 or seg_pos[0] >= len(params):
-        raise AnalysisError("transform: the argument handing the R index to the segment transformer was not found")
-    seg_param = params[seg_pos[0]]
-    st = [s_ for s_ in walk_function(init.node) if isinstance(s_, ast.Assign) and is_self_attr(s_.targets[0]) and
-          seg_param in names_in(s_.value) and not isinstance(s_.value, ast.Call) or
-          (isinstance(s_, ast.Assign) and is_self_attr(s_.targets[0]) and seg_param in names_in(s_.value) and
-           _order_kept(s_.value, params)[0] in ("kept", "reordered"))]
-    if len(st) != 1:
-        raise AnalysisError("_SegmentTransformer.__init__: single store of the R segments expected")
-    chain = [(init, st[0], st[0].value)]
-    rets = [s_ for s_ in walk_function(fr.node) if isinstance(s_, ast.Return) and s_.value is not None]
-    kind, what = _order_kept(st[0].value, params)
-    pos = params.index(what) if kind == "kept" and what in params else None
-    if kind == "kept" and pos is not None:
-        ctx.holds(init, st[0], "transformer stores the segments as given (%s)" % what)
-        arg = call[0].args[pos] if pos < len(call[0].args) else None
-        k2, w2 = _order_kept(arg, []) if arg is not None else ("unknown", "?")
-        if k2 == "kept" and w2 == "self." + dattr:
-            ctx.holds(tr, call[0], "transform hands over the validated index self.%s" % dattr)
-        elif k2 == "reordered":
-            ctx.violated(tr, call[0], "transform re-orders the R index (%s) before the transformer sees it" % w2, text="R order transform")
-        else:
-            raise AnalysisError("transform: segment argument %s not understood" % norm_text(arg) if arg is not None else "missing")
-    elif kind == "reordered":
-        ctx.violated(init, st[0], "the transformer re-orders the R segments (%s) before computing the distances: segments with "
-                     "equal distance from the target (the two unbounded ones) are then processed in another order than the "
-                     "validated one, so cycles are carried over R = +-inf in the wrong sequence" % what, text="R order transformer")
-    else:
-        raise AnalysisError("_SegmentTransformer.__init__: %s not understood" % what)
-    # validated index = index of the object in appearance order
-    locs = {}
-    for s_ in walk_function(fr.node):
-        if isinstance(s_, ast.Assign) and isinstance(s_.targets[0], ast.Name):
-            locs.setdefault(s_.targets[0].id, []).append(s_)
-    bad = None
-    n = 0
-    for r in rets:
-        srcs = [r.value] if not (isinstance(r.value, ast.Name) and r.value.id in locs) else [x.value for x in locs[r.value.id]]
-        flat = []
-        while srcs:                                  # the arms of a conditional expression are sources of their own
-            e = srcs.pop(0)
-            if isinstance(e, ast.IfExp):
-                srcs[:0] = [e.body, e.orelse]
-            else:
-                flat.append(e)
-        for e in flat:
-            k3, w3 = _order_kept(e, [])
-            n += 1
-            if k3 == "reordered":
-                bad = (r, w3)
-            elif k3 == "unknown":
-                raise AnalysisError("_find_R_index: %s not understood" % w3)
-    if bad:
-        ctx.violated(fr, bad[0], "the R index is re-ordered (%s) when it is extracted from the diagram" % bad[1], text="R order extraction")
-    elif n and vst:
-        ctx.holds(fr, rets[-1], "R index extracted in the order of appearance (%d sources), stored by _validate, checked for gaps in that order" % n)
-    else:
-        raise AnalysisError("_find_R_index / _validate: extraction of the R index not found")
-    # the distance sort is the only ordering applied afterwards, and the two unbounded segments tie
+    ctx.rule("R-C12-5", floor=3, what="the two unbounded R segments do not tie: explicit placement, defined order, stable distance sorts")
     stc = prog.cls(MS + ":_SegmentTransformer")
     dm = [fi_ for n_, fi_ in prog.methods_of(stc, inherited=False).items()
           if any(isinstance(x_, ast.Attribute) and x_.attr == "mid" for x_ in ast.walk(fi_.node))]
     if len(dm) != 1:
         raise AnalysisError("_SegmentTransformer: the method computing the distances of the segment mid points was not found")
     d = dm[0]
-    fills = [c for c in calls_in(d.node) if isinstance(c.func, ast.Attribute) and c.func.attr == "fillna"]
-    if fills:
-        ctx.holds(d, fills[0], "unbounded segments (mid = +-inf) both get the fill value: equal distance, order decided by the index order")
+    patches, explicit, ordered = unbounded_tie(d.node)
+    if explicit:
+        ctx.holds(d, explicit[0], "the segment whose mid point is +inf is placed explicitly (%s)" % norm_text(explicit[0])[:60])
+    elif patches:
+        ctx.violated(d, patches[0], "%s: the NaN patch %s puts both unbounded segments ((1, inf) and (-inf, 0]) at the same place; their "
+                     "processing order is then the order of the rows of the diagram, and for the target R = -inf the segment "
+                     "(1, inf) is not processed at all (cycles with R > 1 stay untransformed)" %
+                     (d.name, norm_text(patches[0])[:60]), text="unbounded segments tie")
+    else:
+        raise AnalysisError("%s: neither a NaN patch nor an explicit treatment of the unbounded segments found" % d.name)
+    if explicit:
+        if ordered:
+            ctx.holds(d, ordered[0], "segments are brought into a defined order (%s)" % norm_text(ordered[0])[:70])
+        else:
+            ctx.violated(d, explicit[0], "%s: the unbounded segments are told apart, but the segments are not brought into a defined "
+                         "order (stable argsort / lexsort): after subtracting the target the two can tie again by rounding, and the "
+                         "order of the rows of the diagram decides" % d.name, text="segment order undefined")
+    # the walks: every sort of the distances is stable
+    dattr = None
+    for fi_ in prog.methods_of(stc, inherited=False).values():
+        for st in walk_function(fi_.node):
+            if isinstance(st, ast.Assign) and is_self_attr(st.targets[0]) and any(
+                    isinstance(c_.func, ast.Attribute) and c_.func.attr == d.name for c_ in calls_in(st.value)):
+                dattr = st.targets[0].attr
+    if dattr is None:
+        raise AnalysisError("_SegmentTransformer: the attribute holding the distances was not found")
+    sorts = []
+    for fi_ in prog.methods_of(stc, inherited=False).values():
+        for c_ in calls_in(fi_.node):
+            if isinstance(c_.func, ast.Attribute) and c_.func.attr in ("sort_values", "argsort") and \
+                    any(is_self_attr(x_, dattr) for x_ in ast.walk(c_.func.value)):
+                sorts.append((fi_, c_))
+    if not sorts:
+        raise AnalysisError("_SegmentTransformer: no sort of the distances found")
+    for fi_, c_ in sorts:
+        if any(k.arg == "kind" and const_value(k.value) in ("stable", "mergesort") for k in c_.keywords):
+            ctx.holds(fi_, c_, "%s sorts the distances with a stable sort" % fi_.name)
+        else:
+            ctx.violated(fi_, c_, "%s sorts the distances with an unstable sort (%s): segments at equal distance come out in an "
+                         "unspecified order" % (fi_.name, norm_text(c_)[:60]), text="unstable sort " + fi_.name)
 
 
 def _r6(ctx):
@@ -1128,6 +1103,36 @@ def variants():
         return False
     out.append(witness("one aggregation path bins with pd.cut", MP, cut_path, "R-C12-4"))
 
+    def common_patch(tree):
+        f = find_func(tree, "_SegmentTransformer._distance_from_R_goal")
+        keep = [st for st in f.body if isinstance(st, ast.FunctionDef)]
+        f.body = keep + ast.parse(
+            "meanstress = fake_meanstress(self._R_index.mid).fillna(-1.0)\n"
+            "meanstress_goal = -1.0 if self._R_goal == -np.inf else fake_meanstress(self._R_goal)\n"
+            "return pd.Series(meanstress.values - meanstress_goal, index=self._R_index)\n").body
+        return True
+    out.append(witness("both unbounded segments placed at -1 by one NaN patch", MP, common_patch, "R-C12-5"))
+
+    def unstable_sort(tree):
+        f = find_func(tree, "_SegmentTransformer.segments_left_from_R_goal")
+        for c in calls_in(f):
+            if isinstance(c.func, ast.Attribute) and c.func.attr == "sort_values":
+                c.keywords = [k for k in c.keywords if k.arg != "kind"]
+                return True
+        return False
+    out.append(witness("left walk sorts the distances with the default (unstable) sort", MP, unstable_sort, "R-C12-5"))
+
+    def mergesort(tree):
+        f = find_func(tree, "_SegmentTransformer.segments_left_from_R_goal")
+        for c in calls_in(f):
+            if isinstance(c.func, ast.Attribute) and c.func.attr == "sort_values":
+                for k in c.keywords:
+                    if k.arg == "kind":
+                        k.value = ast.Constant("mergesort")
+                        return True
+        return False
+    out.append(twin("stable sort spelled mergesort", MP, mergesort))
+
     def sorted_segments(tree):
         f = find_func(tree, "_SegmentTransformer.__init__")
         for st in f.body:
@@ -1135,16 +1140,7 @@ def variants():
                 st.value = parse_expr("R_segments.sort_values()")
                 return True
         return False
-    out.append(witness("transformer sorts the R segments", MP, sorted_segments, "R-C12-5"))
-
-    def reversed_segments(tree):
-        f = find_func(tree, "HaighDiagram.transform")
-        for c in calls_in(f):
-            if call_name(c) == "_SegmentTransformer":
-                c.args[2] = parse_expr("self._R_index[::-1]")
-                return True
-        return False
-    out.append(witness("transform hands over the reversed index", MP, reversed_segments, "R-C12-5"))
+    out.append(twin("transformer sorts the R segments (their order no longer matters)", MP, sorted_segments))
 
     def goal_unguarded(tree):
         f = find_func(tree, "_SegmentTransformer._distance_from_R_goal")
